@@ -2856,3 +2856,69 @@ def reachable_excluding(g: CFG, start: int, dead: Set[Tuple[int, int]], labels: 
         seen.add(x)
         work += [d for d, l in g.succ[x] if l in labels and (x, d) not in dead]
     return seen
+
+
+def memo_key_covers_computation(ctx: Ctx, rid: str, modules: Tuple[str, ...], why: str) -> None:
+    """A memo consulted instead of a read (`c = self.<memo>.get(key)` / `self.<memo>[key]` / `key in self.<memo>` in a function
+    that also performs the computation on a miss) must be keyed by everything that selects WHAT is computed: every parameter of
+    the function that reaches the arguments of the computation is part of the key expression (directly or through locals).
+    A parsed-metadata cache keyed by the version number while the file read is selected by the unique file name serves the
+    wrong file when two committers wrote different files for one version."""
+    ctx.rule(rid, "a memo consulted instead of a read is keyed by everything that selects what is read: each parameter of the "
+             "memoising function that reaches the arguments of the computation on a miss also reaches the key " + why, 0)
+    n = 0
+    for f in package_functions(ctx, modules):
+        node = f.node
+        if isinstance(node, ast.Lambda) or f.self_name() is None:
+            continue
+        me = f.self_name()
+        params = {p_.name for p_ in f.params if p_.name != me}
+        if not params:
+            continue
+        own = [x for st in f.body() for x in ast.walk(st)]
+        # local -> parameters it derives from (flow-insensitive, assignments only)
+        deps: Dict[str, Set[str]] = {p_: {p_} for p_ in params}
+        for _round in range(4):
+            for x in own:
+                if isinstance(x, ast.Assign):
+                    src = set().union(*[deps.get(nm, set()) for nm in names_in(x.value)]) if names_in(x.value) else set()
+                    for t in x.targets:
+                        for tn in ([t] if isinstance(t, ast.Name) else [e_ for e_ in getattr(t, "elts", []) if isinstance(e_, ast.Name)]):
+                            deps[tn.id] = deps.get(tn.id, set()) | src
+
+        def pdeps(e: ast.AST) -> Set[str]:
+            return set().union(*[deps.get(nm, set()) for nm in names_in(e)]) if names_in(e) else set()
+
+        memos: Dict[str, List[ast.AST]] = {}
+        for x in own:
+            key = None
+            base = None
+            if isinstance(x, ast.Call) and isinstance(x.func, ast.Attribute) and x.func.attr == "get" and x.args:
+                base, key = x.func.value, x.args[0]
+            elif isinstance(x, ast.Subscript) and isinstance(x.ctx, ast.Load):
+                base, key = x.value, x.slice
+            elif isinstance(x, ast.Compare) and len(x.ops) == 1 and isinstance(x.ops[0], (ast.In, ast.NotIn)):
+                base, key = x.comparators[0], x.left
+            if base is not None and isinstance(base, ast.Attribute) and isinstance(base.value, ast.Name) and base.value.id == me \
+                    and key is not None and pdeps(key):
+                memos.setdefault(base.attr, []).append(key)
+        for attr, keys in memos.items():
+            # it is a memo only if the same function also STORES into it (directly or by handing key + value to a method) ...
+            stores = [x for x in own if isinstance(x, ast.Assign) and any(
+                isinstance(t, ast.Subscript) and isinstance(t.value, ast.Attribute) and t.value.attr == attr for t in x.targets)]
+            key_params = set().union(*[pdeps(k) for k in keys])
+            # ... the computation on a miss: calls on self (not on the memo) whose arguments derive from parameters
+            comp = [x for x in own if isinstance(x, ast.Call) and isinstance(x.func, ast.Attribute) and isinstance(x.func.value, ast.Name)
+                    and x.func.value.id == me and pdeps(x) and not (pdeps(x) <= key_params)]
+            if not comp:
+                continue
+            if not stores and not any(isinstance(x, ast.Call) and isinstance(x.func, ast.Attribute) and isinstance(x.func.value, ast.Name)
+                                      and x.func.value.id == me and any(norm_text(a_) in {norm_text(k) for k in keys} for a_ in x.args)
+                                      for x in own):
+                continue
+            n += 1
+            missing = sorted(set().union(*[pdeps(x) for x in comp]) - key_params)
+            ctx.ob(rid, f, f"memo self.{attr} is keyed by what selects the computation", None, not missing,
+                   f"key derives from {sorted(key_params)}; the computation on a miss also depends on {missing}: two different "
+                   f"inputs share one entry - the second is answered with the first one's result", text=f"{f.name}:{attr}")
+    ctx.ob(rid, None, "memos censused", None, True, f"{n} memo(s) whose miss path depends on more than the key", nontrivial=False)
